@@ -308,7 +308,8 @@ def r5(ctx, R):
             R.bad(en, st, "data is indexed for a possibly uncached cells")
 
 
-@rule("C09.R6", "C09", "FLOW", "the cached flag is copied when cells are derived or instantiated", min_instances=4)
+@rule("C09.R6", "C09", "FLOW", "the cached flag is copied when cells are derived or instantiated; a copy carries inputs only",
+      min_instances=4, also=("C01", "C06"))
 def r6(ctx, R):
     """CellsImpl.__init__ with a base copies base.is_cached; on_inherit copies bases[0].is_cached;
     the writer emits `_is_cached = False` and both cell parsers read it back (see C04.R3)."""
@@ -330,6 +331,21 @@ def r6(ctx, R):
         if a is None or norm(a) != "is_cached":
             R.bad(nc, c, "is_cached is not forwarded to the constructor")
     cc = ctx.func("SpaceManager.copy_cells")
+    R.inst("copy_cells: only assigned values travel with the copy (computed ones are recomputed in the new space)")
+    cnew = [x for x in q.calls(cc, name="new_cells") if (call_recv(x) or "") == "self"]
+    dsrc = q.origin(cc, kw(cnew[0], "data")) if cnew and kw(cnew[0], "data") is not None else None
+    okd = False
+    if isinstance(dsrc, ast.DictComp) and len(dsrc.generators) == 1:
+        g_ = dsrc.generators[0]
+        tg = [norm(e) for e in g_.target.elts] if isinstance(g_.target, ast.Tuple) else []
+        if norm(g_.iter) == "source.data.items()" and len(tg) == 2 and [norm(dsrc.key), norm(dsrc.value)] == tg \
+                and [norm(i) for i in g_.ifs] == ["%s in source.input_keys" % tg[0]]:
+            okd = True
+        if norm(g_.iter) == "source.input_keys" and norm(dsrc.value) == "source.data[%s]" % norm(g_.target) and not g_.ifs:
+            okd = True
+    if not okd:
+        R.bad(cc, cnew[0] if cnew else cc.node, "computed values of the source travel into the copy as inputs: the copy serves "
+              "values obtained with the source space's names and never runs its formula for them", stmt="data = inputs only")
     R.inst("copy_cells: the copy takes the cached flag of its source")
     c = [x for x in q.calls(cc, name="new_cells") if (call_recv(x) or "") == "self"]
     if not c or norm(kw(c[0], "is_cached") or ast.Constant(None)) != "source.is_cached":
